@@ -72,7 +72,7 @@ def cases(shard, rnd):
     if what in ('prims', 'prims-random'):
         if what == 'prims':
             for enc, dec in PAIRS:
-                for v in hostile.pool():
+                for v in hostile.pool() + hostile.magic_pool():
                     yield {'t': 'prim', 'enc': enc, 'dec': dec, 'v': v}
             for v in hostile.hostile_tables(rnd):
                 if isinstance(v, dict):
@@ -90,10 +90,10 @@ def cases(shard, rnd):
                 v = {'k': v} if enc == 'field_table' else [v]
             yield {'t': 'prim', 'enc': enc, 'dec': dec, 'v': v}
     elif what == 'methods':
-        pool = hostile.pool()
         for idx in shard['indexes']:
             spec = refspec.METHODS[idx]
             for n, t, _ in spec.args:
+                pool = hostile.pool_plus(rnd, 40)
                 vs = list(pool) if t != 'table' else \
                     [x for x in hostile.hostile_tables(rnd)
                      if isinstance(x, dict)] + \
@@ -108,8 +108,8 @@ def cases(shard, rnd):
                     yield {'t': 'method', 'index': idx, 'arg': n, 'v': v,
                            'base': gf.assignment(rnd, spec)}
     elif what == 'props':
-        pool = hostile.pool()
         for n, t in refspec.PROPERTIES:
+            pool = hostile.pool_plus(rnd, 150)
             vs = list(pool) if t != 'table' else \
                 [x for x in hostile.hostile_tables(rnd)
                  if isinstance(x, dict)] + [x for x in pool
@@ -125,8 +125,8 @@ def cases(shard, rnd):
             yield {'t': 'prop', 'name': n, 'v': v,
                    'base': gf.props_for_mask(rnd, rnd.getrandbits(13))}
     elif what == 'frames':
-        pool = hostile.pool()
         for slot in FRAME_SLOTS:
+            pool = hostile.pool_plus(rnd, 150)
             for v in pool:
                 yield {'t': 'frame', 'slot': slot, 'v': v}
             for _ in range(shard['n_random']):
